@@ -96,7 +96,6 @@ static int   g_in_cnt[NPG + 1];  /* pgin calls per page */
 static int32 g_npages;
 static int   g_cookie;
 static int   g_fail_out; /* fault injection: the next pgout fails */
-int32        g_q;        /* ghost page number */
 
 #define BKT_OF(pg) ((BKT *)((char *)(pg) - sizeof(BKT)))
 
@@ -148,7 +147,6 @@ st_pgin(void *cookie, int32 pgno, void *page)
 static MCACHE *
 mk_cache(void)
 {
-    H4V_HAVOC(int32, g_q);
     H4V_ND(int32, maxcache);
     H4V_ND(int32, npages);
 #ifdef EXACT /* one run per (cache size, page count): keeps the heap small */
@@ -159,7 +157,6 @@ mk_cache(void)
     H4V_ASSUME(maxcache >= 1 && maxcache <= MAXCACHE);
     H4V_ASSUME(npages >= 1 && npages <= NPG);
 #endif
-    H4V_ASSUME(g_q >= 1 && g_q <= npages);
     g_npages   = npages;
     g_fail_out = 0;
     g_alloc_may_fail = 0;
